@@ -16,6 +16,7 @@ from . import findings
 VERIF = bind.VERIF
 MAX_VIOL_LINES = 20
 MAX_CONFIRM = 60
+MAX_HISTORY_CONFIRM = 3
 
 
 class HarnessError(Exception):
@@ -124,7 +125,11 @@ def _worker(args):
     mod = importlib.import_module(modname)
     try:
         res = mod.run_chunk(chunk)
-        return res.pack() if isinstance(res, ChunkResult) else res
+        out = res.pack() if isinstance(res, ChunkResult) else res
+        if getattr(mod, 'HISTORY_REPLAY', False):
+            for v in out['viol']:
+                v['history_chunk'] = jsonable(chunk)
+        return out
     except CaseTimeout:
         return {'harness_error': 'chunk timeout: %r' % (chunk,)}
     except Exception:
@@ -159,6 +164,24 @@ def write_replay(prop_id, v):
     return path
 
 
+def history_confirm(mod, v):
+    """Re-run the violation's whole chunk in a fresh process, twice; the same violation must occur both times."""
+    import subprocess
+    req = json.dumps({'module': mod.__name__, 'chunk': v['history_chunk'], 'target': [v['kind'], v['input']]})
+    outs = []
+    for _ in range(2):
+        r = subprocess.run([sys.executable, '-m', 'vf.histreplay'], input=req, capture_output=True, text=True,
+                           cwd=VERIF, timeout=1800)
+        line = [ln for ln in r.stdout.splitlines() if ln.startswith('{')]
+        if r.returncode != 0 or not line:
+            raise HarnessError('history replay failed: %s' % (r.stderr[-400:],))
+        outs.append(line[-1])
+    if outs[0] != outs[1]:
+        raise HarnessError('history replay not deterministic: %s vs %s' % (outs[0][:200], outs[1][:200]))
+    o = json.loads(outs[0])
+    return o['found'], o['observed']
+
+
 def confirm(mod, v):
     """Replay twice on the real API, without any explorer. Returns (violates, observed) or raises HarnessError."""
     obs = []
@@ -172,6 +195,13 @@ def confirm(mod, v):
         obs.append((bool(r['violates']), json.dumps(jsonable(r.get('observed')), sort_keys=True)))
     if obs[0] != obs[1]:
         raise HarnessError('replay not deterministic for %s: %r vs %r' % (json.dumps(v)[:300], obs[0], obs[1]))
+    if not obs[0][0] and v.get('history_chunk') is not None:
+        # not reproducible in isolation: a history-dependent failure must reproduce when its history is replayed
+        found, observed = history_confirm(mod, v)
+        if found:
+            v['note'] = (v.get('note', '') + ' history-dependent: reproduces only when the earlier cases of its chunk '
+                         'run first in the same process').strip()
+            return True, observed
     return obs[0][0], json.loads(obs[0][1])
 
 
